@@ -746,6 +746,61 @@ def run(prog, rep, tier):
     if nbuf == 0:
         raise CheckerError("R8.13: no caller-side rendering buffer found")
 
+    # ------------------------------------------------------------ R8.14 only a null entry is dismissed by the time-value scan
+    # "Each non-null record is printed exactly once": null means every byte 0x00 (or 0xFF).  The scan in
+    # preprocess_timevalues may hold an entry back from the index because of a window bound or because
+    # the bytes cannot be read as a time; a comparison of the time value with a constant (`== (0, 0)`)
+    # may dismiss the entry only after the whole entry was looked at (`all(|b| b == 0)` over the
+    # entry's bytes).  Otherwise records with a zero time (acct `ac_btime` 0) are silently lost.
+    R814 = rep.rule("R8.14", "a time value equal to a constant dismisses an entry only after a whole-entry null test")
+    tvb = prog.body("s4lib::readers::fixedstructreader::FixedStructReader::preprocess_timevalues")
+    ins_ = [c for c in tvb.live_calls() if c.d.endswith("BTreeMap::<K, V, A>::insert")]
+    if len(ins_) != 1:
+        raise CheckerError("preprocess_timevalues: %d index inserts" % len(ins_))
+    hdrs8 = [h for (_t, h) in tvb.back_edges() if ins_[0].bb in tvb.loop_blocks(h)]
+    if not hdrs8:
+        raise CheckerError("preprocess_timevalues: index insert not in a loop")
+    h8 = min(hdrs8, key=lambda h: len(tvb.loop_blocks(h)))
+    n814 = 0
+    consts_cmp = 0
+    for c in tvb.live_calls():
+        if c.d.split("::")[-1] not in ("eq", "ne") or "tv_pair_type" not in c.d:
+            continue
+        # one side a constant aggregate?
+        const_side = False
+        for a_ in c.args:
+            os_ = tvb.origins(a_)
+            if os_ and all(o_[0] == "const" for o_ in os_):
+                const_side = True
+            elif os_ and all(o_[0] == "agg" for o_ in os_):
+                agg_ok = True
+                for o_ in os_:
+                    st_ = tvb.stmts(o_[1])[o_[2]]
+                    if not all(x[0] == "k" for x in st_[2][2]):
+                        agg_ok = False
+                const_side = const_side or agg_ok
+        if not const_side or c.target is None:
+            continue
+        consts_cmp += 1
+        t = tvb.term(c.target)
+        if t[0] != "switch":
+            continue
+        arms = {int(v_): tb_ for v_, tb_ in t[2]}
+        eq_true = (t[3] if 0 in arms else arms.get(1)) if c.d.split("::")[-1] == "eq" else arms.get(0, t[3])
+        if eq_true is None:
+            continue
+        n814 += 1
+        nulltests = {x.bb for x in tvb.live_calls() if x.o.endswith("Iterator::all") or x.d.split("::")[-1] in ("is_null", "iter_all_zero")}
+        # the read of the whole entry that precedes the test counts as looking at it (its failure arm ends the scan of that entry)
+        nulltests |= {x.bb for x in tvb.live_calls() if x.d.endswith("::read_data_to_buffer") and tvb.dominates(eq_true, x.bb)} if any(
+            tvb.dominates(eq_true, nb_) for nb_ in nulltests) else set()
+        skips = h8 in tvb.reachable(eq_true, nulltests | {ins_[0].bb})
+        rep.examined(R814, tvb.path + "|const-time-compare", sample={"line": c.line, "whole_entry_tests_in_loop": len(nulltests), "dismissed_without_whole_entry_test": skips})
+        if skips:
+            rep.violation(R814, tvb.path + "|const-time-compare|dismissed-by-time-alone", "preprocess_timevalues (line %d): an entry whose time value equals a constant goes round the loop without being indexed and without a test of the whole entry; "
+                          "a record with a zero time and other fields set (acct records with ac_btime 0: 35 of the 111 in logs/CentOS9/x86_64/pacct) is never printed" % c.line)
+    rep.examined(R814, tvb.path + "|inventory", nontrivial=False, sample={"comparisons_of_the_time_value_with_a_constant": consts_cmp, "judged": n814})
+
     return rep.finish(
         "Static necessary-condition check of the accounting-record reader: the ordering index cannot lose records with equal times (key "
         "contains the record offset), the index is walked minimum-first in map order removing the served key, the prefilter loop accepts "
